@@ -171,3 +171,8 @@ func (v *VerifListener6) Handle(handlers []handler.Handler6, datagram []byte, oo
 
 // Close forgets the listener
 func (v *VerifListener6) Close() { verifSlots6.Delete(v.l) }
+
+// VerifSendEthernet runs the real sendEthernet: the frame a link-level unicast reply leaves in, on iface
+func VerifSendEthernet(iface net.Interface, resp *dhcpv4.DHCPv4) error {
+	return sendEthernet(iface, resp)
+}
